@@ -60,6 +60,8 @@ func c01(c *Ctx) {
 	c01VerdictTested(c)
 	c01SignedState(c)
 	c01RowColumns(c, "C01.7/row-columns-compared-with-proven-row")
+	// a response that can not be verified is refused, it does not take the verifier down (analysis shared with C16.12)
+	c16PeerMessages(c, "C01.8/incomplete-response-is-refused")
 	// ---- C01.5 proto conversions carry every field ---------------------------------------------------------------------
 	c01Proto(c)
 }
